@@ -194,6 +194,11 @@ func checkC13(c *Ctx) {
 		c12Retry(c, a)
 		c12Transmit(c, a)
 		c12Map(c, a)
+		// "completed only by a message the matcher accepts": SendAndRead hands back the packet received from the transaction's
+		// channel, and only under match == nil or match(packet) (shared C10-K4); the wait select returns what each case
+		// stands for (shared C11-K1: the deadline case yields the value the retry driver retransmits on)
+		c10Matcher(c, a)
+		c11Wait(c, a)
 	}
 	c09Reassembly2(c, "C13-K7")
 	// the matchers compare ServerIdentifier() and MessageType(): both must report option 54 / 53 and nothing else
